@@ -374,11 +374,13 @@ Fixpoint data_lines (univariate : bool) (panel : list series) (vals : list str) 
                end
   end.
 
-Definition write_ts (o : wopts) (panel : list series) (vals : list str) : res (list str) :=
+Definition write_ts_with (items : list (wguard * list wpart))
+           (o : wopts) (panel : list series) (vals : list str) : res (list str) :=
   if negb (len panel =? len vals) && (0 <? len vals) then Err            (* IndexError *)
   else if o_equal_length o && (o_series_length o =? -1) then Err           (* ValueError *)
-  else Ok (comment_lines (o_comment o) ++ render_header o writer_header ++
+  else Ok (comment_lines (o_comment o) ++ render_header o items ++
            data_lines (o_univariate o) panel vals).
+Definition write_ts := write_ts_with writer_header.
 
 (* ---------------------------------------------------------------- .arff (univariate, labelled) *)
 
